@@ -246,6 +246,7 @@ def check_b(ck, repo):
         frame = (f"hasattr({df}, 'iloc')", True) in pre.conds
         sig = []
         vector_b = False
+        mm_seen = False
         for p in [p for p in inner if p.ret is None]:
             first = None
             for t, pol in p.conds:
@@ -260,6 +261,9 @@ def check_b(ck, repo):
             if acc is None and mn is None and mx is None and not any(k.startswith(("cor[", "mini[", "maxi[")) for k in st):
                 vector_b = True
                 continue
+            for v__ in (mn, mx):
+                if v__ is not None and tm is not None and _t(v__) != tm and _t(v__).startswith(("min(", "max(", "numpy.minimum(", "numpy.maximum(", "numpy.fmin(", "numpy.fmax(")):
+                    mm_seen = True
             if tm is None or mn is None or mx is None:
                 ok = False
             elif first is True:
@@ -272,7 +276,14 @@ def check_b(ck, repo):
         if vector_b and not sig:
             ck.unknown("C18.b", fi, f"min/max bookkeeping ({'frame' if frame else 'array'})", "min and max are not kept cell by cell in the loop body: another bookkeeping than the one this rule reads")
             continue
-        ck.verdict(bool(sig) and all(ok for _, ok, _ in sig) and {f for f, _, _ in sig} == {True, False}, "C18.b", fi, f"min/max bookkeeping ({'frame' if frame else 'array'})", "min and max start at the first draw's term and are updated with min/max of the same term", "min/max bookkeeping changed: min <= mean <= max can fail (not initialised at the first draw, or not updated with min/max of the accumulated term)")
+        okall = bool(sig) and all(ok for _, ok, _ in sig) and {f for f, _, _ in sig} == {True, False}
+        uses_minmax = mm_seen
+        compares = any(("<" in t_ or ">" in t_) and ("mini" in t_ or "maxi" in t_ or "COR" in t_ or ".copy()" in t_) for p in inner if p.ret is None for t_, _p in p.conds)
+        if not okall and not uses_minmax and compares:
+            ck.unknown("C18.b", fi, f"min/max bookkeeping ({'frame' if frame else 'array'})", "the extrema are kept by comparison-guarded assignments (if term < cell: cell = term) instead of min()/max(): the cases of that spelling are not enumerated by this rule")
+            by_kind[frame] = sorted(s_[2] for s_ in sig)
+            continue
+        ck.verdict(okall, "C18.b", fi, f"min/max bookkeeping ({'frame' if frame else 'array'})", "min and max start at the first draw's term and are updated with min/max of the same term", "min/max bookkeeping changed: min <= mean <= max can fail (not initialised at the first draw, or not updated with min/max of the accumulated term)")
         by_kind[frame] = sorted(s_[2] for s_ in sig)
     # the running extremum of a cell is updated from that very cell: `maxi` and `mini` start as
     # equal copies, so the evaluation above cannot tell them apart - the statements can
